@@ -590,7 +590,7 @@ func (X *Exec) frameInfo() map[string]*frameAllow {
 }
 
 func frameHeapName(n string) bool {
-	return !(n == AllocHeap || strings.HasPrefix(n, "LK|") || strings.HasPrefix(n, "GH|") || strings.HasPrefix(n, "IT|") || n == "GM|maxalloc" || n == "GM|maxmake")
+	return !(n == AllocHeap || strings.HasPrefix(n, "LK|") || strings.HasPrefix(n, "GH|") || strings.HasPrefix(n, "IT|") || n == "GM|maxalloc" || n == "GM|maxmake" || n == "GM|chancap")
 }
 
 // frameGoal: component n in state st equals its entry value outside the allowed locations (objects that did not exist
